@@ -209,7 +209,7 @@ func (c Column) GoString() string {
 // Expr creates a general new expression. The other public functions are just helpers that call this
 // function underneath.
 func Expr(left any, op Operator, right ...any) *Expression {
-	if isStringlike(left) && operatesOnColumn(op) {
+	if (isStringlike(left) || isNumberlike(left)) && operatesOnColumn(op) {
 		left = wrapInColumn(left)
 	}
 
@@ -549,12 +549,36 @@ func wrapInColumn(in any) (out *Expression) {
 
 	e, isExpr := in.(*Expression)
 	if isExpr {
-		s, isStr = e.Left.(string)
-		if isStr {
-			return Lit(Column(s))
-		}
+		in = e.Left
+	}
+
+	switch v := in.(type) {
+	case string:
+		return Lit(Column(v))
+	case int:
+		// a field name that looks like a number is still a field name
+		return Lit(Column(strconv.Itoa(v)))
+	case float64:
+		return Lit(Column(FormatFloat(v)))
 	}
 	return e
+}
+
+// isNumberlike checks if the input is a number or is a literal wrapping a number
+func isNumberlike(in any) bool {
+	e, isExpr := in.(*Expression)
+	if isExpr {
+		if e.Op != Literal {
+			return false
+		}
+		in = e.Left
+	}
+
+	switch in.(type) {
+	case int, float64:
+		return true
+	}
+	return false
 }
 
 // apparently the json unmarshal only parses float64 values so we check if the float64
